@@ -126,8 +126,9 @@ TEXTS = {
     },
     "C06": {
         "text": "Kernel-checked for every record (all Int run states incl. out of range, all Int statuses, all names): topic selection of MakeOutboxEventData (if-chain regenerated from event.go), "
-                "injectivity of status topics (decimal rendering is injective), pairwise disjointness of status/delete/run-state-change topics, headers carry run ID, foreign ID, run state, version. "
-                "Tie: real MakeOutboxEventData/Topic functions vs the Lean model on an enumerated record space incl. int32/int64 limits and unicode names, plus an oracle from the property text.",
+                "injectivity of status topics (decimal rendering is injective), pairwise disjointness of status/delete/run-state-change topics, headers carry run ID, foreign ID, run state, version; "
+                "Await (test regenerated from await.go): a release requires the event to pass the foreign-ID/run-ID filters AND to have been written at the awaited status (failed to prove before the repair of defect F2). "
+                "Tie: real MakeOutboxEventData/Topic functions vs the Lean model on an enumerated record space incl. int32/int64 limits and unicode names, plus an oracle from the property text; live-await runs the real Await against scripted pause/resume/cancel/advance histories and late events of an older run of the same foreign ID.",
         "note": TB + "protobuf encode/decode of the outbox record is external (decoded with the generated Go code).",
         "technique": "Lean 4 proof (decision logic + injectivity of decimal rendering) + differential co-simulation of event.go/topic.go",
     },
